@@ -4,3 +4,4 @@ import Properties.C12
 #print axioms Hive.C12.paired_vehicle_eligible
 #print axioms Hive.C12.paired_request_waiting
 #print axioms Hive.C12.dispatch_available
+#print axioms Hive.C12.run_distinct
